@@ -45,6 +45,7 @@ func c02(c *Ctx) {
 	mergeRule(c, "C08.R10")
 	c02R9(c)
 	c02R10(c)
+	c02R11(c)
 	// a pod's addresses are released together (shared rule): a leftover IPv6 of a deleted pod would be
 	// inherited by its same-named successor next to an IPv4 from another interface
 	c03R1(c)
@@ -894,4 +895,31 @@ func c02R10(c *Ctx) {
 		return true
 	})
 	c.Check(len(fromCreate) == 0, "C02.R10", "createENI: the recorded entry takes nothing from the create answer", p.Pos(fn.Decl), fn.Key(), "fields of the entry come from the description (and the chosen vSwitch)", strings.Join(fromCreate, "; "))
+}
+
+// R11: one owner for the status of the node record. Bindings, addresses and interface states live in
+// Node.Status and are published by the multi-ip node controller (compare-and-swap, R8). No other
+// function assigns that status as a whole — in particular not the node controller's write-back, which
+// would copy the status it read earlier over an update published in between (found in the pinned tree
+// and fixed: findings/C02-node-controller-reverts-status).
+func c02R11(c *Ctx) {
+	p := asWritten(c.P)
+	c.Rule("C02.R11", "Node.Status (the IPAM record's interfaces, addresses and bindings) is assigned as a whole only inside the multi-ip node controller; other writers of the record (the node controller's CreateOrPatch) carry spec and labels only")
+	fv := p.Field(apiPkg, "Node", "Status")
+	if fv == nil {
+		c.Unres("C02.R11", "v1beta1.Node.Status", "not found")
+		return
+	}
+	n := 0
+	for _, s := range p.StoresTo(nil, fv) {
+		if s.InLit {
+			continue
+		}
+		n++
+		inOwner := strings.HasSuffix(s.Fn.Pkg.PkgPath, nodeCtlPkg)
+		c.Check(inOwner, "C02.R11", "whole-status store in "+s.Fn.Key(), p.Pos(s.Node), s.Fn.Key(), "only "+nodeCtlPkg+" assigns Node.Status", "a second writer copies a status it read earlier over the record")
+	}
+	if n == 0 {
+		c.OK("C02.R11", "whole-status stores of the node record", "", "", "none outside composite literals")
+	}
 }
